@@ -95,6 +95,10 @@ pub fn execute(plan: &Plan, ctx: &mut Ctx) {
     let clock_ref: Reference<SimClock> = rc_ref_cell_reference(clock.clock());
     // followed getters, one per settable
     let fg_f: Vec<SensorHandle<f32>> = (0..2).map(|_| SensorHandle::new()).collect();
+    // a second getter each that the first two settables can be told to follow instead
+    let fg_alt: Vec<SensorHandle<f32>> = (0..2).map(|_| SensorHandle::new()).collect();
+    let mut alt_script = [Fg::None; 2];
+    let mut follows_alt = [false; 2];
     let fg_s = SensorHandle::<Datum<State>>::new();
     let fg_c = SensorHandle::<Datum<Command>>::new();
     let mut fg_script = [Fg::None; 4];
@@ -199,11 +203,30 @@ pub fn execute(plan: &Plan, ctx: &mut Ctx) {
                     }
                     None
                 }
+                "FGA" => {
+                    // script the alternative getter of settable 0 / 1
+                    let k = s % 2;
+                    match op.arg(1) {
+                        0 => {
+                            alt_script[k] = Fg::None;
+                            fg_alt[k].set(Ok(None));
+                        }
+                        _ => {
+                            alt_script[k] = Fg::Some(op.arg(1), op.arg(2) as u32);
+                            fg_alt[k].set(Ok(Some(Datum::new(Time(op.arg(1)), f32::from_bits(op.arg(2) as u32)))));
+                        }
+                    }
+                    None
+                }
                 "FOL" => {
                     model[s].following = true;
+                    if s < 2 {
+                        follows_alt[s] = op.arg(1) != 0;
+                    }
+                    let pick = |k: usize| if follows_alt[k] { fg_alt[k].sensor() } else { fg_f[k].sensor() };
                     match s {
-                        0 => motor.follow(dyn_getter::<f32, _>(fg_f[0].sensor())),
-                        1 => cg.follow(dyn_getter::<f32, _>(fg_f[1].sensor())),
+                        0 => motor.follow(dyn_getter::<f32, _>(pick(0))),
+                        1 => cg.follow(dyn_getter::<f32, _>(pick(1))),
                         2 => <Terminal<E> as Settable<Datum<State>, E>>::follow(&mut term.borrow_mut(), dyn_getter::<Datum<State>, _>(fg_s.sensor())),
                         _ => <Terminal<E> as Settable<Datum<Command>, E>>::follow(&mut term.borrow_mut(), dyn_getter::<Datum<Command>, _>(fg_c.sensor())),
                     }
@@ -271,7 +294,8 @@ pub fn execute(plan: &Plan, ctx: &mut Ctx) {
                         if !model[k].following {
                             continue;
                         }
-                        match fg_script[k] {
+                        let followed = if k < 2 && follows_alt[k] { alt_script[k] } else { fg_script[k] };
+                        match followed {
                             Fg::None => {}
                             Fg::Err(e) => {
                                 want = Some(Er::Other(e));
@@ -616,7 +640,15 @@ pub fn generate(prop: &str, tier: Tier, rng: &mut Rng, seed: u64, run: u64) -> P
             }
             3 | 4 => plan.push("SET", &[s, fb(uniq), tval(rng)]),
             5 => plan.push("REJ", &[if rng.chance(0.5 + fault) { rng.range(1, 2) } else { 0 }]),
-            6 => plan.push("FOL", &[s]),
+            6 => {
+                // follow the first or the alternative getter (following twice replaces the getter)
+                let alt = rng.below(2) as i64;
+                if alt == 1 {
+                    uniq += 1.0;
+                    plan.push("FGA", &[s, tval(rng) | 1, fb(uniq)]);
+                }
+                plan.push("FOL", &[s, alt]);
+            }
             7 => plan.push("UNF", &[s]),
             8 | 9 => {
                 let r = rng.unit();
@@ -631,7 +663,11 @@ pub fn generate(prop: &str, tier: Tier, rng: &mut Rng, seed: u64, run: u64) -> P
             10 | 11 | 12 => plan.push("UPD", &[s]),
             13 => plan.push("HNEW", &[rng.below(4) as i64, tval(rng)]),
             14 => plan.push("HDELTA", &[tval(rng)]),
-            15 => plan.push("HTIME", &[tval(rng)]),
+            15 => {
+                // sometimes exactly the current clock value (offset becomes zero)
+                let cur = plan.ops.iter().rev().find(|o| o.code == "CLK").map(|o| o.arg(0)).unwrap_or(plan.get("t0"));
+                plan.push("HTIME", &[if rng.chance(0.25) { cur } else { tval(rng) }]);
+            }
             16 | 17 => {
                 if rng.chance(0.2) {
                     plan.push("HABS", &[rng.below(2) as i64]);
